@@ -143,3 +143,20 @@ Theorem C03_value_of_a_call_is_what_return_gave :
                    (m_stack s', fr s') = (m_stack s, fr s) /\ rev (s_trace ss') = rev (s_trace ss) ++ evs.
 Proof. exact call_value_simulation. Qed.
 Print Assumptions C03_value_of_a_call_is_what_return_gave.
+
+(* Calls inside expressions -- `assign y {n * [f {n - 1}]}`, `hue {[g] + 10}`, `print {[round x] / 2}`, and `return {...}` with
+   such an expression (`B_retexpr`: the recursive function of the language reference).  [CExpr e]: the calls in e are calls of
+   built-in functions or of routines whose body always ends in a return, their arguments ordinary values; the rest of e any
+   supported arithmetic.  The operands already computed wait on the evaluation stack while a call runs; the routine's code
+   leaves the stack as it found it (`call_runs`), pushes RESULT, and the operators combine the values as the reference semantics
+   does, events of the calls in the order of evaluation, left to right. *)
+Theorem C03_calls_inside_expressions :
+  forall rt mt, bodies_ok rt mt -> forall u e, CExpr rt mt e -> use_ok u = true ->
+  forall after im ss s sig ss' fuel, routines_loaded rt mt im -> sim ss s ->
+  code_at im (m_pc s) (c_stmt rt mt false after (use_stmt u (RExpr e))) ->
+  Sem.exec rt mt fuel false ss (use_stmt u (RExpr e)) = ROk sig ss' ->
+  sig = SigNormal /\
+  exists n s' evs, esteps n im s = Some (s', evs) /\ sim ss' s' /\ m_pc s' = m_pc s + zlength (c_stmt rt mt false after (use_stmt u (RExpr e))) /\
+                   (m_stack s', fr s') = (m_stack s, fr s) /\ rev (s_trace ss') = rev (s_trace ss) ++ evs.
+Proof. exact expression_call_simulation. Qed.
+Print Assumptions C03_calls_inside_expressions.
